@@ -290,6 +290,12 @@ C12(e, pre, post, mon) ==
       If(\E s \in entered : s.refund # h + pre.gov.lazyRewardBlocks,
          "C12: a released stake is not locked for exactly the unbonding period in force at its release")
       \cup If(left # {}, "C12: an unbonding stake disappeared outside the end of a block")
+      \* released or force-released: whatever leaves the bonded set (other than the stakes of an accused validator, C14)
+      \* starts unbonding for its owner, in full
+      \cup LET named == IF e.ev = "BeginBlock" THEN {e.evidence[i].v : i \in 1..Len(e.evidence)} ELSE {}
+               gone == {st \in AllStakes(pre) : StakeKey(st) \notin BondedKeys(post) /\ st.to \notin named}
+           IN If(\E st \in gone : ~\E f \in entered : f.id = st.id /\ f.to = st.to /\ f.from = st.from /\ f.pow = st.pow,
+                 "C12: a stake left the bonded set without starting to unbond for its owner with its full power")
    ELSE {})
   \cup
   (IF e.ev = "EndBlock" THEN
@@ -485,6 +491,12 @@ C15(e, pre, post, mon) ==
       \cup If(e.ev = "Commit" /\ "committed" \in DOMAIN e /\ e.committed.gov # post.gov,
               "C15: the governance query differs from the active parameters")
       \cup If(e.ev # "EndBlock" /\ e.ev # "Commit" /\ post.govPending # pre.govPending, "C15: pending parameters changed outside the end of a block")
+      \* the latest vote of a recorded voter stands (whatever happens to its power) until it votes again
+      \cup If(e.ev # "DeliverTx"
+               /\ \E id \in DOMAIN pre.props \cap DOMAIN post.props :
+                    \E v \in DOMAIN pre.props[id].voters \cap DOMAIN post.props[id].voters :
+                       post.props[id].voters[v].choice # pre.props[id].voters[v].choice,
+              "C15: the recorded choice of a voter changed without a vote of that voter")
    ELSE {})
   \cup
   (IF IsTx(e) /\ e.resp.ok /\ e.tx.type = "proposal" THEN
@@ -610,6 +622,19 @@ C19(e, mon) ==
   ELSE {}
 
 \* at Commit: what queries return for the new height is exactly the consensus view at the end of the block
+\* the previous height asked again right after one more block was committed (before anything else is asked)
+C19Again(e, mon) ==
+  IF e.ev = "Commit" /\ "recommitted" \in DOMAIN e /\ e.recommitted.h \in DOMAIN mon.snaps
+  THEN LET a == e.recommitted  b == mon.snaps[e.recommitted.h]
+           \* (the digests of the raw answers: for the keys asked the first time; addresses that became known since are
+           \* asked in addition)
+           fs == {f \in (DOMAIN a \cap DOMAIN b) \ {"raw"} : a[f] # b[f]}
+                 \cup (IF "raw" \in DOMAIN a \cap DOMAIN b /\ \E k \in DOMAIN b.raw : k \notin DOMAIN a.raw \/ a.raw[k] # b.raw[k]
+                       THEN {"raw"} ELSE {}) IN
+       If(fs # {} \/ DOMAIN a # DOMAIN b,
+          "C19: the answers for the previous height changed when one more block was committed")
+  ELSE {}
+
 C19Commit(e, pre) ==
   IF e.ev = "Commit" /\ "committed" \in DOMAIN e THEN
     LET c == e.committed IN
